@@ -44,7 +44,7 @@ CHUNKS = [0, 1, 3, 64]
 def shards(tier, seed):
     out = []
     if tier == "quick":
-        nwork, reps, combos, nh, budget = 5, 2, 10, 36, 50
+        nwork, reps, combos, nh, budget = 8, 2, 8, 36, 60
     else:
         nwork, reps, combos, nh, budget = 16, 5, 28, 600, 500
     for layer in ("workqueue", "omp"):
@@ -110,8 +110,11 @@ def schedule_shard(params, rec):
                 rec.note(f"time budget reached after {wi} workloads")
                 break
             shape = str(rng.choice(["many-tiny", "many-tiny", "few-big", "plan"]))
-            cross = bool(rng.random() < 0.6)
-            order = int(rng.choice([-1, 0, 1, 2]))
+            # every quick run covers all six parallel kernels (order class x auto/cross)
+            kind = [(-1, False), (-1, True), (0, False), (0, True), (1, False), (2, True),
+                    (2, False), (1, True)][wi % 8]
+            order, cross = kind
+            rec.distinct("kernels_stressed", f"order{order}/{'csd' if cross else 'auto'}")
             if shape == "many-tiny":
                 L = int(rng.choice([16, 32, 64]))
                 N = int(rng.choice([20000, 50000, 120000]))
